@@ -3,7 +3,7 @@
 //! Simulated system: producer (real serde_json or a foreign JSON writer) -> byte channel executing
 //! a fault plan -> consumer (real serde_json in five configurations); plus a token-level serde peer.
 
-use super::c17_oracle::{frame_expectation, string_reference_agrees, Exp, Num, RefFrame, SCALE_LIMIT};
+use super::c17_oracle::{frame_expectation_opt, string_reference_agrees, Exp, Num, RefFrame, SCALE_LIMIT};
 use super::c17_types::*;
 use crate::env::peer::{PeerError, RecSerializer, SerRecord, Token, TokenDe, PEER_SINK_ERROR};
 use crate::env::pipe::{IoPlan, SimReader, SimWriter};
@@ -42,6 +42,37 @@ impl Frame {
             list: s.list.iter().map(|d| d.to_bd()).collect(),
             optplain: s.optplain.as_ref().map(|d| d.to_bd()),
         }
+    }
+}
+
+#[derive(Deserialize, Debug, Clone)]
+pub struct FrameBody {
+    pub plain: BigDecimal,
+    #[serde(with = "bigdecimal::serde::json_num")]
+    pub num: BigDecimal,
+    #[serde(with = "bigdecimal::serde::json_num_option")]
+    pub opt: Option<BigDecimal>,
+    pub list: Vec<BigDecimal>,
+    pub optplain: Option<BigDecimal>,
+}
+
+#[derive(Deserialize, Debug, Clone)]
+pub struct FlatOuter {
+    pub id: u64,
+    #[serde(flatten)]
+    pub body: FrameBody,
+}
+
+#[derive(Deserialize, Debug, Clone)]
+#[serde(untagged)]
+pub enum UntaggedFrame {
+    Body(FrameBody),
+    Other { other: String },
+}
+
+impl FrameBody {
+    fn into_frame(self, id: u64) -> Frame {
+        Frame { id, plain: self.plain, num: self.num, opt: self.opt, list: self.list, optplain: self.optplain }
     }
 }
 
@@ -216,6 +247,19 @@ fn consume(w: &Wire, bytes: &[u8]) -> Consumed {
                 Ok(v) => vec![serde_json::from_value::<Frame>(v).map_err(|e| e.to_string())],
                 Err(e) => vec![Err(e.to_string())],
             },
+            Consumer::Lines => truncated.split(|&b| b == b'\n').filter(|l| !l.is_empty()).take(16).map(|l| serde_json::from_slice::<Frame>(l).map_err(|e| e.to_string())).collect(),
+            Consumer::FlattenSlice => vec![serde_json::from_slice::<FlatOuter>(truncated).map(|o| o.body.into_frame(o.id)).map_err(|e| e.to_string())],
+            Consumer::FlattenReader => {
+                let mut rd = SimReader::new(w.rplan.clone(), bytes.to_vec());
+                let r = serde_json::from_reader::<_, FlatOuter>(&mut rd).map(|o| o.body.into_frame(o.id)).map_err(|e| e.to_string());
+                rstats = rd.stats.clone();
+                vec![r]
+            }
+            Consumer::UntaggedSlice => vec![match serde_json::from_slice::<UntaggedFrame>(truncated) {
+                Ok(UntaggedFrame::Body(b)) => Ok(b.into_frame(u64::MAX)),
+                Ok(UntaggedFrame::Other { .. }) => Err("matched the other variant".to_string()),
+                Err(e) => Err(e.to_string()),
+            }],
         }
     });
     match r {
@@ -236,6 +280,9 @@ fn reference_docs(w: &Wire, bytes: &[u8]) -> Vec<Result<Value, ()>> {
         }
     }
     let b = &bytes[..cut];
+    if w.consumer == Consumer::Lines {
+        return b.split(|&c| c == b'\n').filter(|l| !l.is_empty()).take(16).map(|l| serde_json::from_slice::<Value>(l).map_err(|_| ())).collect();
+    }
     if w.consumer.is_stream() {
         let mut out = vec![];
         for x in serde_json::Deserializer::from_slice(b).into_iter::<Value>() {
@@ -293,7 +340,7 @@ impl C17 {
                 check("list", Some(g), Some(wn), arr.and_then(|a| a.get(i)));
             }
         }
-        if got.id != want.id {
+        if got.id != want.id && w.consumer != Consumer::UntaggedSlice {
             fails.push(wire_fail("J2-digit-for-digit", w, format!("frame {}: id {} != {}", idx, got.id, want.id)).focus(json!({"frame": idx})));
         }
         obs.reach("frame_compared_with_reference_decode");
@@ -345,7 +392,7 @@ impl C17 {
         };
         number_form("num", Some(&got.num), Some(&sent.num));
         number_form("opt", got.opt.as_ref(), sent.opt.as_ref());
-        if got.id != sent.id {
+        if got.id != sent.id && w.consumer != Consumer::UntaggedSlice {
             fails.push(wire_fail("J1-roundtrip-string-form", w, format!("frame {}: id {} came back as {}", idx, sent.id, got.id)).focus(json!({"frame": idx})));
         }
     }
@@ -477,8 +524,10 @@ impl C17 {
 
         let mut outcome_sig: Vec<u64> = vec![];
         let mut stop = false;
+        // a line-by-line consumer carries on after a rejected frame; every other consumer stops at the first error
+        let independent = w.consumer == Consumer::Lines;
         for (i, r) in refs.iter().enumerate() {
-            if stop {
+            if stop && !independent {
                 break;
             }
             let got = c.items.get(i);
@@ -507,7 +556,7 @@ impl C17 {
                     }
                     stop = true;
                 }
-                Ok(doc) => match frame_expectation(doc) {
+                Ok(doc) => match frame_expectation_opt(doc, w.consumer != Consumer::UntaggedSlice) {
                     Exp::Unknown(why) => {
                         outcome_sig.push(2);
                         obs.reach(intern(&format!("expectation_unknown:{}", &why[..why.len().min(40)])));
@@ -570,7 +619,7 @@ impl C17 {
             }
         }
         // the consumer may report one trailing error (a read fault after the last complete frame), never an extra value
-        if !stop && c.items.len() > refs.len() {
+        if !stop && !independent && c.items.len() > refs.len() {
             let extra = &c.items[refs.len()..];
             if extra.iter().any(|x| x.is_ok()) {
                 fails.push(wire_fail("J3-torn-or-broken-frame-is-an-error", w, format!("consumer produced {} item(s) beyond the {} documents that arrived", extra.len(), refs.len())));
@@ -921,16 +970,20 @@ impl Property for C17 {
             }
             2 => Trace::SerPeer { value: gen_value(rng), human_readable: rng.chance(1, 2), sink: SinkSel::All },
             _ => {
-                let consumer = match rng.below(9) {
+                let consumer = match rng.below(14) {
                     0 => Consumer::FromReader,
                     1 => Consumer::FromReaderBuffered(*rng.pick(&[1usize, 2, 7, 64, 8192])),
                     2 => Consumer::FromSlice,
                     3 => Consumer::FromStr,
                     4 | 5 => Consumer::StreamReader,
                     6 => Consumer::StreamSlice,
-                    _ => Consumer::ViaValue,
+                    7 | 8 => Consumer::ViaValue,
+                    9 | 10 => Consumer::Lines,
+                    11 => Consumer::FlattenSlice,
+                    12 => Consumer::FlattenReader,
+                    _ => Consumer::UntaggedSlice,
                 };
-                let nframes = if consumer.is_stream() { 1 + rng.below(4) as usize } else { 1 };
+                let nframes = if consumer.multi() { 1 + rng.below(4) as usize } else { 1 };
                 // swarm: which fault kinds are enabled for this run
                 let foreign_rate = *rng.pick(&[0u64, 0, 1, 2, 4]); // out of 4
                 let faults_on = rng.chance(2, 3);
@@ -977,7 +1030,13 @@ impl Property for C17 {
                         });
                     }
                 }
-                Trace::Wire(Wire { frames, producer: *rng.pick(&[Producer::ToWriter, Producer::ToWriter, Producer::ToWriter, Producer::ToVec, Producer::ToVec, Producer::ToWriterPretty]), consumer, wplan, rplan, corrupt })
+                {
+                    let mut producer = *rng.pick(&[Producer::ToWriter, Producer::ToWriter, Producer::ToWriter, Producer::ToVec, Producer::ToVec, Producer::ToWriterPretty]);
+                    if consumer == Consumer::Lines && producer == Producer::ToWriterPretty {
+                        producer = Producer::ToWriter; // pretty output contains newlines
+                    }
+                    Trace::Wire(Wire { frames, producer, consumer, wplan, rplan, corrupt })
+                }
             }
         }
     }
